@@ -460,6 +460,50 @@ def rule_value_to_int(ctx) -> None:
                    "; ".join(probs[:2]), "width from get_bytes_cnt_of_int(value, align_to_2n, byte_cnt=byte_cnt), order from endianness", A.loc(MISC, vb.node))
 
 
+def rule_bytes_cnt(ctx) -> None:
+    """get_bytes_cnt_of_int evaluated on integers around every byte boundary: the documented width (smallest byte count, aligned to
+    1, 2, 4, 8, 12, ... when asked, or the requested count when it suffices), a value that does not fit the requested count is
+    rejected, and a negative value is rejected - the evaluator's loop bound turns a loop that cannot terminate into a finding."""
+    fn = ctx.func(MISC, "get_bytes_cnt_of_int")
+    probs = []
+    n = 0
+
+    def cv(c: ast.Call, ev):
+        if norm(c.func) in ("ceil", "math.ceil") and len(c.args) == 1:
+            import math as _m
+            return _m.ceil(ev.ev(c.args[0]))
+        return ordereval.NOT_MODELLED
+    vals = [0, 1, 0xFF, 0x100, 0xFFFF, 0x10000, 0xFFFFFF, 0x1000000, 0xFFFFFFFF, 1 << 32, (1 << 40) - 1, 1 << 64, (1 << 96) - 1, -1, -256]
+    for v in vals:
+        for a2 in (True, False):
+            for bc in (None, 2, 4, 16):
+                try:
+                    out = ordereval.Evaluator({"value": v, "align_to_2n": a2, "byte_cnt": bc}, ctx.fold_sym(fn), opaque_return=False, call_value=cv).run(A.body_of(fn.node))
+                    kind, got = out.kind, out.value
+                except ordereval.Unsupported as ex:
+                    if "loop bound" in str(ex):
+                        kind, got = "hang", None
+                    else:
+                        raise AnalysisError(f"C20.bytes-cnt: get_bytes_cnt_of_int left the fragment: {ex}")
+                n += 1
+                if v < 0:
+                    want_k, want_v = "raise", None
+                else:
+                    cnt = max(1, (v.bit_length() + 7) // 8)
+                    if a2 and cnt > 2:
+                        cnt = -(-cnt // 4) * 4
+                    if v == 0:
+                        want_k, want_v = "return", bc or 1
+                    elif bc and cnt > bc:
+                        want_k, want_v = "raise", None
+                    else:
+                        want_k, want_v = "return", bc or cnt
+                if kind != want_k or (want_k == "return" and got != want_v):
+                    probs.append(f"value {v:#x}, align_to_2n {a2}, byte_cnt {bc}: {'never terminates' if kind == 'hang' else kind + ' ' + str(got)} (expected {want_k}{'' if want_v is None else ' ' + str(want_v)})")
+    ctx.chk.exhaustive_rules.add("C20.bytes-cnt")
+    ctx.chk.decide(not probs, "C20.bytes-cnt", fn.qual, f"smallest byte count (aligned / requested), too-wide and negative values rejected, always terminates ({n} models around every byte boundary)", "; ".join(probs[:3]), "", A.loc(MISC, fn.node))
+
+
 def rule_strides(ctx) -> None:
     # reverse_bytes_in_longs: modulus, stride and window are the same 4
     fn = ctx.func(MISC, "reverse_bytes_in_longs")
@@ -720,6 +764,7 @@ def run(ctx) -> None:
     ctx.rule(rule_swaps)
     ctx.rule(rule_value_to_int)
     ctx.rule(rule_strides)
+    ctx.rule(rule_bytes_cnt)
     ctx.rule(rule_bcd)
     ctx.rule(rule_enum)
     ctx.rule(rule_load_hex_string)
